@@ -518,7 +518,38 @@ def rule_Y12(ctx, rule: str = "Y12") -> None:
     ctx.floor(rule, "annotation shapes evaluated", n, 24)
 
 
+def rule_Y13(ctx, rule: str = "Y13") -> None:
+    """the oneof validator that only the pydantic variants run judges every group by its own members: what it collects per group
+    (the names of the members that are set) starts empty for each group - collected in a list bound once above the loop, the
+    second group is judged together with the first and a message with one member set in each of two groups is rejected under
+    pydantic_dataclasses while the standard dataclass builds it"""
+    from ..src import M_INIT
+    from .c09 import stale_scratch_locals
+    mod = ctx.repo.mod(M_INIT)
+    name = "_validate_field_groups:per-group-state-fresh"
+    if not mod.has("Message._validate_field_groups"):
+        ctx.inconclusive(rule, name, "Message._validate_field_groups not found", M_INIT)
+        return
+    fn = mod.func("Message._validate_field_groups")
+    ctx.analysed("Message._validate_field_groups")
+    loops = [lp for lp in fn.body if isinstance(lp, ast.For)] or [lp for lp in ast.walk(fn) if isinstance(lp, ast.For)]
+    if not loops:
+        ctx.proved(rule, name, mod.loc(fn), "no loop over the groups in this function")
+        return
+    ctx.count(len(loops))
+    stale, both = stale_scratch_locals(fn, loops[0])
+    if stale:
+        v, use = stale[0]
+        ctx.refuted(rule, name, v, mod.loc(use), f"`{v}` is filled and read inside the loop over the oneof groups but bound only above it: the members found set in one group are "
+                    "still in it when the next group is judged, so two groups with one member each look like one group with two",
+                    "pydantic_dataclasses; message with oneof a {x} and oneof b {y}; M(x=1, y=2) raises ValidationError")
+    else:
+        ctx.proved(rule, name, mod.loc(loops[0]), f"in-place locals read in the loop: {both or 'none'}, each bound inside it")
+
+
 def run(ctx) -> None:
+    ctx.rules_run.append("Y13")
+    rule_Y13(ctx)
     ctx.rules_run.append("Y12")
     rule_Y12(ctx)
     ctx.rules_run += ["Y1", "Y2", "Y3", "Y4", "Y5", "Y6", "P3(pydantic)", "Y11"]
